@@ -78,11 +78,15 @@ type Chip struct {
 	LDS map[uint16]*EF
 
 	// personality
-	ExtendedLen    bool // accepts extended-length APDUs
-	LeCap          int  // READ BINARY with Ne above this is rejected with 6700 (0 = no cap)
-	Lenient2E      bool // accept the 6-byte "CLA INS P1 P2 LeHi LeLo" form for READ BINARY (non-ISO, emitted by gmrtd for Le>256 without data)
-	NoAccessRules  bool // file-only personality: every file readable in the clear
-	ImplicitMFOnly bool // SELECT MF only in the form without data
+	ExtendedLen bool // accepts extended-length APDUs
+	LeCap       int  // READ BINARY with Ne above this is rejected with 6700 (0 = no cap)
+	// MFFilesFromApplication: SELECT by file identifier falls back to the master file's EFs when the current
+	// application has no such file (many chips resolve EF.DIR / EF.CardAccess this way; the library reads EF.DIR
+	// after selecting the LDS application)
+	MFFilesFromApplication bool
+	Lenient2E              bool // accept the 6-byte "CLA INS P1 P2 LeHi LeLo" form for READ BINARY (non-ISO, emitted by gmrtd for Le>256 without data)
+	NoAccessRules          bool // file-only personality: every file readable in the clear
+	ImplicitMFOnly         bool // SELECT MF only in the form without data
 	// ReadChoice decides how many bytes (1..min(Ne,Avail)) a READ BINARY returns; nil = all. Returning 0 means "reject with 6700".
 	ReadChoice func(r ReadReq) int
 	// Fault hook: called with the exchange index and the genuine wire response; may return a replacement.
@@ -304,6 +308,9 @@ func (c *Chip) doSelect(cmd *ref7816.Cmd) ([]byte, uint16) {
 		}
 		fid := uint16(cmd.Data[0])<<8 | uint16(cmd.Data[1])
 		f := c.files()[fid]
+		if f == nil && c.MFFilesFromApplication {
+			f = c.MF[fid]
+		}
 		if f == nil {
 			return nil, 0x6A82
 		}
